@@ -12,6 +12,9 @@ trap 'rm -rf "$W"' EXIT
 rsync -a /repo/ "$W"/
 (cd "$W" && git checkout -q -- . 2>/dev/null; git apply "$d/patch.diff") || { echo "patch does not apply"; exit 2; }
 cd "$VROOT"
+# the check rewrites evidence/<prop>.json; a run against a patched tree must not leave its file behind
+ev="$VROOT/evidence/$prop.json"; bak=$(mktemp /tmp/verif-evbak-XXXXXX); cp "$ev" "$bak" 2>/dev/null
+trap 'cp "$bak" "$ev" 2>/dev/null; rm -f "$bak"; rm -rf "$W"' EXIT
 out=$(VERIF_REPO="$W" VERIF_SEED=${VERIF_SEED:-1} ./bin/verif check "$prop" --tier "$tier" 2>&1); rc=$?
 echo "$out" | grep -E "^(VIOLATION|KNOWN|RESULT|TROUBLE)" | cut -c1-300
 echo "$out" | grep -A3 "^VIOLATION" | grep -E "oracle=" | cut -c1-200 | head -5
